@@ -7,10 +7,9 @@ import Pacti.Props.C04
 `PolyhedralIoContract.compose_tactics`: the generic algebra (interface definitions generated from the source)
 instantiated with the modelled polyhedral primitives running on an LP oracle `O`.
 
-`compose_sound_poly_partial` is the statement of the property for every wiring, kept set and flag, and for every
-tactic order built from the tactics whose soundness is a theorem (2, 4, 5, 6; see C04).  The full statement — any
-order — is `compose_sound_poly_any_sound_table`, which is proved for any tactic TABLE that is sound on the
-order used; for tactics 1 and 3 of the real table soundness is established per run by the certified judge.
+`compose_sound_poly` is the statement of the property for the real tactic table: every wiring, kept set, flag and
+EVERY tactic order (every entry of the table is proved sound, see C04).  `compose_sound_poly_any_sound_table` is the
+same for an arbitrary tactic table that is sound on the order used.
 -/
 namespace Pacti.C01
 open PolyAlg
@@ -24,13 +23,13 @@ theorem compose_sound_poly_any_sound_table (O : Oracle) (hO : O.Certified) (tie 
       TL.holds c1.a v ∧ TL.holds c2.a v ∧ TL.holds c.g v :=
   Alg.compose_sound PTerm.holds PTerm.vars _ (polyPrims_spec O hO tie false tac rfl) c1 c2 c keep simp ord hord h
 
-/-- the real tactic table, orders over the tactics proved sound -/
-theorem compose_sound_poly_partial (O : Oracle) (hO : O.Certified) (tie : PTerm → Bool) (hint : PTerm → TL → Bool → Option (List Nat))
-    (c1 c2 c : Contract PTerm) (keep : List Var) (simp : Bool) (ord : List Nat) (hord : ∀ j ∈ ord, j ∈ [2, 4, 5, 6])
+/-- the real tactic table, any order -/
+theorem compose_sound_poly (O : Oracle) (hO : O.Certified) (tie : PTerm → Bool) (hint : PTerm → TL → Bool → Option (List Nat))
+    (c1 c2 c : Contract PTerm) (keep : List Var) (simp : Bool) (ord : List Nat) 
     (h : compose (polyPrims O tie false (realTac O false hint)) c1 c2 keep simp ord = .ok c) :
     ∀ v, TL.holds c.a v → (TL.holds c1.a v → TL.holds c1.g v) → (TL.holds c2.a v → TL.holds c2.g v) →
       TL.holds c1.a v ∧ TL.holds c2.a v ∧ TL.holds c.g v :=
   compose_sound_poly_any_sound_table O hO tie _ c1 c2 c keep simp ord
-    (fun j hj => Pacti.C04.driver_tactics_sound O hO hint j (hord j hj)) h
+    (fun j _ => Pacti.C04.driver_tactics_sound O hO hint j) h
 
 end Pacti.C01
